@@ -38,6 +38,9 @@ type Prog struct {
 	declOnce sync.Once
 	decls    map[types.Object]*ast.FuncDecl
 
+	globalFuncsOnce sync.Once
+	globalFuncs     map[*ssa.Global][]*ssa.Function
+
 	cgOnce  sync.Once
 	chaG    *callgraph.Graph
 	vtaOnce sync.Once
@@ -397,4 +400,127 @@ func (p *Prog) FuncsOfPkg(pkg string) []*ssa.Function {
 		}
 	}
 	return out
+}
+
+// StaticReach returns the module functions reachable from roots through static calls, closures created
+// (MakeClosure) and function values mentioned as operands (functions stored in tables or passed as arguments).
+func (p *Prog) StaticReach(roots []*ssa.Function) map[*ssa.Function]bool {
+	seen := map[*ssa.Function]bool{}
+	var work []*ssa.Function
+	push := func(f *ssa.Function) {
+		if f != nil && !seen[f] && IsModFunc(f) && len(f.Blocks) > 0 {
+			seen[f] = true
+			work = append(work, f)
+		}
+	}
+	for _, r := range roots {
+		push(r)
+	}
+	for len(work) > 0 {
+		f := work[len(work)-1]
+		work = work[:len(work)-1]
+		for _, a := range f.AnonFuncs {
+			push(a)
+		}
+		Instrs(f, func(in ssa.Instruction) {
+			for _, op := range in.Operands(nil) {
+				if fn, ok := (*op).(*ssa.Function); ok {
+					push(fn)
+				}
+				if mc, ok := (*op).(*ssa.MakeClosure); ok {
+					push(mc.Fn.(*ssa.Function))
+				}
+			}
+			if c, ok := in.(ssa.CallInstruction); ok {
+				if callee := c.Common().StaticCallee(); callee != nil {
+					push(callee)
+				} else if c.Common().IsInvoke() {
+					// interface call: the module's implementations of the method (class-hierarchy resolution)
+					if n := p.CHA().Nodes[f]; n != nil {
+						for _, e := range n.Out {
+							if e.Site == c && IsModFunc(e.Callee.Func) {
+								push(e.Callee.Func)
+							}
+						}
+					}
+				}
+			}
+			// uses of package-level tables of functions: every function stored in the table's initialiser
+			for _, op := range in.Operands(nil) {
+				if g, ok := (*op).(*ssa.Global); ok && g.Pkg != nil && InModule(g.Pkg.Pkg.Path()) {
+					for _, tf := range p.funcsInGlobalInit(g) {
+						push(tf)
+					}
+				}
+			}
+		})
+	}
+	return seen
+}
+
+// funcsInGlobalInit lists the functions stored into global g (and its elements) by the package initialiser.
+func (p *Prog) funcsInGlobalInit(g *ssa.Global) []*ssa.Function {
+	p.globalFuncsOnce.Do(func() {
+		p.globalFuncs = map[*ssa.Global][]*ssa.Function{}
+		for fn := range p.AllFuncs {
+			if fn.Pkg == nil || !InModule(fn.Pkg.Pkg.Path()) || (fn.Synthetic != "package initializer" && fn.Name() != "init") {
+				continue
+			}
+			Instrs(fn, func(in ssa.Instruction) {
+				st, ok := in.(*ssa.Store)
+				if !ok {
+					return
+				}
+				// root global of the address
+				addr := st.Addr
+				for {
+					switch x := addr.(type) {
+					case *ssa.FieldAddr:
+						addr = x.X
+						continue
+					case *ssa.IndexAddr:
+						addr = x.X
+						continue
+					}
+					break
+				}
+				gl, ok := addr.(*ssa.Global)
+				if !ok {
+					return
+				}
+				var collect func(v ssa.Value, d int)
+				collect = func(v ssa.Value, d int) {
+					if d > 4 {
+						return
+					}
+					switch x := v.(type) {
+					case *ssa.Function:
+						p.globalFuncs[gl] = append(p.globalFuncs[gl], x)
+					case *ssa.MakeClosure:
+						p.globalFuncs[gl] = append(p.globalFuncs[gl], x.Fn.(*ssa.Function))
+					case *ssa.Call:
+						// genericExpander(names...)(f): the closure returned wraps f
+						for _, a := range x.Call.Args {
+							collect(a, d+1)
+						}
+						collect(x.Call.Value, d+1)
+					case *ssa.ChangeType:
+						collect(x.X, d+1)
+					case *ssa.MakeInterface:
+						collect(x.X, d+1)
+					case *ssa.MakeMap:
+						if x.Referrers() != nil {
+							for _, r := range *x.Referrers() {
+								if mu, ok := r.(*ssa.MapUpdate); ok {
+									collect(mu.Value, d+1)
+								}
+							}
+						}
+					}
+				}
+				collect(st.Val, 0)
+			})
+		}
+	})
+	return p.globalFuncs[g]
 }
